@@ -16,6 +16,9 @@ type Conn struct {
 	Reads  int
 	Writes int
 	Remote net.Addr
+	// EOFReads counts the Reads that found nothing left: a reader that went on to wait for bytes the
+	// wire does not hold (an effect the harness can judge on, whatever error text the reader returns)
+	EOFReads int
 }
 
 func New() *Conn { return &Conn{} }
@@ -26,6 +29,7 @@ func (c *Conn) Read(p []byte) (int, error) {
 		return 0, net.ErrClosed
 	}
 	if len(c.In) == 0 {
+		c.EOFReads++
 		return 0, io.EOF
 	}
 	n := copy(p, c.In)
